@@ -8,7 +8,7 @@
    and the implementation's own == on every generated pair. *)
 From Coq Require Import List NArith Bool Arith.
 Import ListNotations.
-Require Import V.Regex V.Parse V.ParseProofs V.PathSpec V.Splice V.Setters V.Push V.Reference V.Cmp V.ResolveProofs4 V.RelProofs.
+Require Import V.Regex V.Parse V.ParseProofs V.PathSpec V.Splice V.Setters V.Push V.Reference V.Cmp V.ResolveProofs4 V.C16Proofs V.RelProofs V.RelProofs2.
 Local Open Scope nat_scope.
 
 Definition round_trip (a b : str) : option bool :=
@@ -42,6 +42,26 @@ Theorem C15_round_trip_partial : forall (pa pb : parts) (s : str) (common ss bs 
   exists pr, wf_parts pr /\ relative_to (compose pa) (compose pb) = Some (compose pr) /\ resolve (compose pr) (compose pb) = Some (compose pa).
 Proof. exact round_trip_partial. Qed.
 Print Assumptions C15_round_trip_partial.
+
+(* GENERALISED: the directory prefixes of a and b need not be literally equal, only segment-wise equal after
+   percent-decoding (cb for b, ca for a: exactly what strip_common compares).  relative_to returns the same
+   reference; resolving it gives a with b's spelling of the common prefix -- a value that the normalising ==
+   (Cmp.eq_ref, property C07) identifies with a.  This is the round trip as the property states it ("equal to a"). *)
+Theorem C15_round_trip_respelled_partial : forall (pa pb : parts) (s : str) (ca cb ss bs : list str),
+  wf_parts pa -> wf_parts pb -> p_scheme pa = Some s -> p_scheme pb = Some s ->
+  p_authority pa = p_authority pb -> (forall x, p_authority pa = Some x -> eq_authority x x = Some true) ->
+  is_abs (p_path pa) = true -> is_abs (p_path pb) = true ->
+  segs (p_path pa) = ca ++ ss -> removelast (segs (p_path pb)) = cb ++ bs ->
+  plain (segs (p_path pa)) -> plain (segs (p_path pb)) -> no_empty_but_last (p_path pa) -> no_empty_but_last (p_path pb) ->
+  Forall2 seg_eq cb ca -> strip_common (ca ++ ss) (cb ++ bs) = Some (ss, bs) ->
+  ss <> [] ->
+  (bs = [] -> match ss with x :: _ => x <> [] /\ colon_first x = false | [] => False end) ->
+  (p_query pa = None -> p_fragment pa <> None -> p_path pb = render true (cb ++ ss) -> p_query pb = None) ->
+  Forall (fun x => dec x <> None) ss -> (forall x, p_query pa = Some x -> dec x <> None) -> (forall x, p_fragment pa = Some x -> dec x <> None) ->
+  exists pr back, wf_parts pr /\ relative_to (compose pa) (compose pb) = Some (compose pr) /\
+                  resolve (compose pr) (compose pb) = Some back /\ eq_ref back (compose pa) = Some true.
+Proof. exact round_trip_respelled_partial. Qed.
+Print Assumptions C15_round_trip_respelled_partial.
 
 (* the strip_common hypothesis holds whenever the common prefix is literal and decodable and the next segments
    differ after percent-decoding *)
